@@ -110,6 +110,7 @@ class Stack(AbstractBijection):
         shapes = [b.shape for b in bijections]
         check_shapes_match(shapes)
 
+        axis = range(len(shapes[0]) + 1)[axis]  # Avoids issues when axis is negative
         self.shape = shapes[0][:axis] + (len(bijections),) + shapes[0][axis:]
         self.cond_shape = merge_cond_shapes([b.cond_shape for b in bijections])
 
